@@ -28,6 +28,9 @@ pub struct ChunkedChars<R: Read> {
     /// Set by [`Utf16TailGuard`] when the raw input starts with a UTF-8 byte-order mark: the
     /// decoder strips it, the cap charges its three bytes with the first character.
     source_has_utf8_bom: Rc<Cell<bool>>,
+    /// Bytes of byte-order marks that the decoder removes from UTF-16 input: 2, or 4 when the mark
+    /// is written twice (the decoder's own mark removal takes the second one as well).
+    utf16_mark_bytes: Rc<Cell<usize>>,
     /// The underlying reader that already yields UTF-8 bytes (typically a
     /// `BufReader<DecodeReaderBytes<...>>`). It is read incrementally.
     reader: R,
@@ -57,6 +60,7 @@ impl<R: Read> ChunkedChars<R> {
             total_bytes: 0,
             source_is_utf16: Rc::new(Cell::new(false)),
             source_has_utf8_bom: Rc::new(Cell::new(false)),
+            utf16_mark_bytes: Rc::new(Cell::new(2)),
             reader,
             err,
             done: false,
@@ -168,7 +172,11 @@ impl<R: Read> ChunkedChars<R> {
         // Enforce byte limit if configured. A character of transcoded UTF-16 input is charged
         // with the bytes it occupied in the raw input (the byte-order mark with the first one).
         let add = if self.source_is_utf16.get() {
-            let bom = if self.total_bytes == 0 { 2 } else { 0 };
+            let bom = if self.total_bytes == 0 {
+                self.utf16_mark_bytes.get()
+            } else {
+                0
+            };
             bom + if needed == 4 { 4 } else { 2 }
         } else if self.total_bytes == 0 && self.source_has_utf8_bom.get() {
             3 + needed
@@ -309,14 +317,27 @@ struct Utf16TailGuard<R> {
     maybe_utf8_bom: bool,
     /// Shared with `ChunkedChars`: the stream starts with a UTF-8 byte-order mark.
     source_has_utf8_bom: Rc<Cell<bool>>,
+    /// Shared with `ChunkedChars`: see there.
+    utf16_mark_bytes: Rc<Cell<usize>>,
+    /// Bytes 2 and 3 of a UTF-16 stream (the place of a repeated mark).
+    second: [u8; 2],
+    second_len: usize,
     /// The reader has reported its end.
     ended: bool,
 }
 
 impl<R: Read> Utf16TailGuard<R> {
-    fn new(inner: R, source_is_utf16: Rc<Cell<bool>>, source_has_utf8_bom: Rc<Cell<bool>>) -> Self {
+    fn new(
+        inner: R,
+        source_is_utf16: Rc<Cell<bool>>,
+        source_has_utf8_bom: Rc<Cell<bool>>,
+        utf16_mark_bytes: Rc<Cell<usize>>,
+    ) -> Self {
         Self {
             inner,
+            utf16_mark_bytes,
+            second: [0; 2],
+            second_len: 0,
             source_is_utf16,
             maybe_utf8_bom: false,
             source_has_utf8_bom,
@@ -352,6 +373,13 @@ impl<R: Read> Utf16TailGuard<R> {
                 }
                 return;
             };
+            if self.second_len < 2 {
+                self.second[self.second_len] = b;
+                self.second_len += 1;
+                if self.second_len == 2 && self.second == self.head {
+                    self.utf16_mark_bytes.set(4);
+                }
+            }
             match self.half.take() {
                 None => self.half = Some(b),
                 Some(first) => {
@@ -403,6 +431,7 @@ pub fn buffered_input_from_reader_with_limit<'a, R: Read + 'a>(
 ) -> (ReaderInput<'a>, ReaderInputError) {
     let source_is_utf16 = Rc::new(Cell::new(false));
     let source_has_utf8_bom = Rc::new(Cell::new(false));
+    let utf16_mark_bytes = Rc::new(Cell::new(2));
     // Auto-detect encoding (BOM or guess), decode to UTF-8 on the fly.
     let decoder = DecodeReaderBytesBuilder::new()
         .encoding(None) // None = sniff BOM / use heuristics; set Some(encoding) to force
@@ -414,6 +443,7 @@ pub fn buffered_input_from_reader_with_limit<'a, R: Read + 'a>(
             reader,
             source_is_utf16.clone(),
             source_has_utf8_bom.clone(),
+            utf16_mark_bytes.clone(),
         ));
 
     let error: ReaderInputError = Rc::new(RefCell::new(None));
@@ -422,6 +452,7 @@ pub fn buffered_input_from_reader_with_limit<'a, R: Read + 'a>(
     let mut char_iter = ChunkedChars::new(br, max_bytes, error.clone());
     char_iter.source_is_utf16 = source_is_utf16;
     char_iter.source_has_utf8_bom = source_has_utf8_bom;
+    char_iter.utf16_mark_bytes = utf16_mark_bytes;
 
     (BufferedInput::new(char_iter), error)
 }
